@@ -33,7 +33,8 @@ func (eng) Rule() string {
 		"(lin) relation-free schemas, client-boundary history of Add1/Remove1/Tick per state checked with porcupine against a " +
 		"per-state tick model; (dedup) 2-8 arg-less Add1/Remove1/CanAdd1/CanRemove1 issued from a handler that holds the queue or from " +
 		"another goroutine meanwhile, activity after the drain compared with the sequential application of the real mutations; (dedupwin) " +
-		"the last issued arg-less mutation parked at dq.found while the queue processes its twin and the counter mutation. Monitors: handler/eval single occupancy, tracer nesting, queue-tick order of appended mutations, " +
+		"the last issued arg-less mutation parked at dq.found while the queue processes its twin and the counter mutation; (rmstale) 400 rounds of " +
+		"a Remove issued by another goroutine right after the Add queued by an End handler has left the queue. Monitors: handler/eval single occupancy, tracer nesting, queue-tick order of appended mutations, " +
 		"exactly-once conservation of uids, stranded queue at quiescence (stable), WhenQueue(tick) closed for every processed tick " +
 		"(subscribed before and after processing). Evaluation = one issued op; distinct non-trivial = distinct (case, op) that was " +
 		"queued behind a running transition or raced the release window."
@@ -65,6 +66,13 @@ func (eng) Cases(seed uint64, tier string) []core.CaseDesc {
 	}
 	for i := 0; i < 4; i++ {
 		cs = append(cs, core.CaseDesc{ID: fmt.Sprintf("dedupwin/%02d", i), Kind: "dedupwin", Seed: uint64(i)})
+	}
+	nrs := 6
+	if tier == "thorough" {
+		nrs = 200
+	}
+	for i := 0; i < nrs; i++ {
+		cs = append(cs, core.CaseDesc{ID: fmt.Sprintf("rmstale/%03d", i), Kind: "rmstale", Seed: seed*6000011 + uint64(i)})
 	}
 	nd := 200
 	if tier == "thorough" {
@@ -795,8 +803,64 @@ func (eng) Run(c core.CaseDesc, tier string) *core.CaseResult {
 		runDedup(res, c)
 	case "dedupwin":
 		runDedupWindow(res, c)
+	case "rmstale":
+		runRemoveBehindQueuedAdd(res, c)
 	}
 	return res
+}
+
+// runRemoveBehindQueuedAdd: the End handler of a Remove(X) queues Add(B); as
+// soon as that Add has been taken off the queue another goroutine issues
+// Remove(B). The Remove is issued after the Add was queued, so B has to be
+// inactive once the machine is idle, whatever the Remove returned.
+func runRemoveBehindQueuedAdd(res *core.CaseResult, c core.CaseDesc) {
+	m := am.New(context.Background(), am.Schema{"X": {}, "B": {}},
+		&am.Opts{Id: "c04rs", DontLogId: true, DontLogStackTrace: true, HandlerTimeout: 30 * time.Second})
+	defer m.Dispose()
+	queued := make(chan am.Result, 1)
+	_, _ = m.HandlersBindMaps(nil, map[string]am.HandlerFinal{
+		"XEnd": func(e *am.Event) { queued <- m.Add1("B", nil) },
+	})
+	for round := 0; round < 400; round++ {
+		m.Add1("X", nil)
+		if m.Is1("B") {
+			m.Remove1("B", nil)
+		}
+		if !m.Is1("X") || m.Is1("B") || m.QueueLen() != 0 {
+			res.Inconclusive = "setup of a round failed: " + m.String()
+			return
+		}
+		var rs am.Result
+		var addTick am.Result
+		done := make(chan struct{})
+		go func() {
+			defer close(done)
+			select {
+			case addTick = <-queued:
+			case <-time.After(10 * time.Second):
+				return
+			}
+			// ... and has just been taken off the queue
+			for i := 0; m.QueueLen() > 0 && i < 50000000; i++ {
+			}
+			rs = m.Remove1("B", nil)
+		}()
+		m.Remove1("X", nil)
+		<-done
+		if q := quiesce(m); q != "" {
+			res.Inconclusive = "no quiescence: " + q
+			return
+		}
+		res.Evals++
+		if m.Is1("B") {
+			res.Violate("C04/lost-effect/remove-behind-a-queued-add", fmt.Sprintf(
+				"round %d: Add1(B) was queued (tick %d) by the End handler of Remove1(X); Remove1(B), issued after that Add had left the queue, returned %s and B is active on the idle machine",
+				round, uint64(addTick), rec.ResStr(rs)), map[string]any{"final": m.StringAll()})
+			return
+		}
+	}
+	res.Key("rmstale", c.Seed)
+	res.Count("removes_issued_right_behind_a_dequeued_add", 400)
 }
 
 // runDedupWindow: an arg-less mutation is parked inside the duplicate
